@@ -268,6 +268,16 @@ fn sig_of(md: &[u8]) -> &'static str {
 /// specification's rule "a list is loose if any of its constituent list items are separated by
 /// blank lines, or if any of its constituent list items directly contain two block-level elements
 /// with a blank line between them".
+/// Delimiter runs between punctuation and a symbol (`S*` categories count as punctuation for flanking).
+const FLANKING_PROBES: &[(&str, &str)] = &[
+    ("**Note:**`x` is set.\n", "<p><strong>Note:</strong><code>x</code> is set.</p>\n"),
+    ("**Total:**$5\n", "<p><strong>Total:</strong>$5</p>\n"),
+    ("*a!*+1 *b?*=2 *c)*|3\n", "<p><em>a!</em>+1 <em>b?</em>=2 <em>c)</em>|3</p>\n"),
+    ("_a._=b\n", "<p><em>a.</em>=b</p>\n"),
+    ("$*a*\u{a3}*b*\u{20ac}**c**\n", "<p>$<em>a</em>\u{a3}<em>b</em>\u{20ac}<strong>c</strong></p>\n"),
+    ("a*\"b\"*c\n", "<p>a*&quot;b&quot;*c</p>\n"),
+];
+
 const FENCE_PROBES: &[(&str, &str)] = &[
     ("```\n~~~\n```\n", "<pre><code>~~~\n</code></pre>\n"),
     ("~~~ markdown\n```\nlet x = 1;\n```\n~~~\n\nafter\n", "<pre><code class=\"language-markdown\">```\nlet x = 1;\n```\n</code></pre>\n<p>after</p>\n"),
@@ -621,12 +631,12 @@ pub fn run(cfg: &Cfg, rep: &mut Report) {
         }
     }
     // code fences: a line of the other fence character, or a shorter run of the same one, is content
-    for (md, html) in FENCE_PROBES {
+    for (md, html) in FENCE_PROBES.iter().chain(FLANKING_PROBES.iter()) {
         rep.count("fence-probe");
         rep.s_evals += 1;
         match real(md) {
             Ok(r) if r.html == html.as_bytes() => {}
-            Ok(r) => rep.fail("html-vs-reference", "fenced-code-content-line-looks-like-a-fence", format!("case {} {}", hex(md.as_bytes()), hex(html.as_bytes())), format!("{:?}: {}", md, diff_window(&r.html, html.as_bytes()))),
+            Ok(r) => rep.fail("html-vs-reference", if md.contains("```") || md.contains("~~~\n") { "fenced-code-content-line-looks-like-a-fence" } else { "delimiter-run-between-punctuation-and-symbol" }, format!("case {} {}", hex(md.as_bytes()), hex(html.as_bytes())), format!("{:?}: {}", md, diff_window(&r.html, html.as_bytes()))),
             Err(e) => rep.fail("canon-total", "panic", format!("case {} {}", hex(md.as_bytes()), hex(html.as_bytes())), e),
         }
     }
